@@ -87,7 +87,7 @@ structure Q where
   enqCount : Nat := 0
   deqCount : Nat := 0
   dropCount : Nat := 0
-  deriving Repr
+  deriving Repr, DecidableEq
 
 def Q.dropOldest (q : Q) : Bool := q.flags &&& flagDropOldest != 0
 def Q.blockWriter (q : Q) : Bool := q.flags &&& flagBlockWriter != 0
